@@ -1763,7 +1763,7 @@ class PseudoNetCDFFile(PseudoNetCDFSelfReg, object):
                             yearlike, refdate.month, refdate.day, tzinfo=utc)
                         # Calculate delta in years
                         addyears = (
-                            crefdate - refcdate).total_seconds() / yearseconds
+                            refcdate - crefdate).total_seconds() / yearseconds
                     else:
                         addyears = 0
                     # Convert time to fractional years, including change in
